@@ -38,13 +38,13 @@ enum { NT_INVALID = 0, NT_FLOAT = 1, NT_SIGNED = 2, NT_UNSIGNED = 3, NT_DOUBLE =
  * every offset is defined for every string (a group may be empty; the cut stops at the first character that fits nowhere) */
 static char *g_str;  /* the string under scan */
 static size_t g_len; /* its length: g_str[g_len] is the first NUL */
-static size_t g_a0, g_a1, g_b0, g_b1, g_c0, g_c1;
+static size_t g_a0, g_a1, g_b0, g_b1, g_c0, g_c1; /* (the scanner computes them in 16 bits) */
 static size_t g_lead;            /* offset of the first non-zero mantissa digit (integer or fraction part), PN_N + 8 if there is none */
 static long g_pm;                /* mantissa digits alone denote a value in [10^pm, 10^(pm+1)) (when there is a non-zero digit) */
 /* g_S[k], a0 <= k <= a1: value of the integer digits [a0,k) modulo 2^64; g_over[k]: that value is 2^64 or more */
 static uint64_t g_S[PN_N + 2];
 static _Bool g_over[PN_N + 2];
-static long g_E[PN_N + 2];       /* g_E[k], c0 <= k <= c1: value of the exponent digits [c0,k) (stops growing beyond 10^9) */
+static int32_t g_E[PN_N + 2];    /* g_E[k], c0 <= k <= c1: value of the exponent digits [c0,k) (stops growing beyond 10^8) */
 /* a value m has j decimal digits (j = 0: m == 0) exactly when g_lo[j] <= m <= g_hi[j] */
 static const uint64_t g_lo[21] = {0ull, 1ull, 10ull, 100ull, 1000ull, 10000ull, 100000ull, 1000000ull, 10000000ull, 100000000ull,
   1000000000ull, 10000000000ull, 100000000000ull, 1000000000000ull, 10000000000000ull, 100000000000000ull, 1000000000000000ull,
@@ -93,26 +93,43 @@ struct lit_info {
   unsigned nint, nfrac, nexp;
   _Bool f4_family;  /* the integer digits pass through 1844674407370955161 followed by a digit >= 6 (2^64 .. 2^64+3, and longer) */
 };
-/* one pass, left to right; phases: 1 integer digits, 2 fraction digits, 3 just behind the exponent marker, 4 exponent digits, 5 stopped */
+/* one pass, left to right; phases: 1 integer digits, 2 fraction digits, 3 just behind the exponent marker, 4 exponent digits, 5 stopped.
+ * Positions and counters are held in 16 bits (PN_N < 65000) to keep the formula small.  In the loop-contract build the
+ * built-in checks of THIS function (array bounds, overflow of its own counters) are switched off: they multiply the number
+ * of cbmc properties without saying anything about the code under test; the unwound build (UNIT_PN) runs the same text with
+ * every check on. */
+#ifdef UNIT_PNLOOP
+#pragma CPROVER check push
+#pragma CPROVER check disable "bounds"
+#pragma CPROVER check disable "pointer"
+#pragma CPROVER check disable "pointer-overflow"
+#pragma CPROVER check disable "pointer-primitive"
+#pragma CPROVER check disable "signed-overflow"
+#pragma CPROVER check disable "undefined-shift"
+#pragma CPROVER check disable "div-by-zero"
+#endif
 static void spec_scan(const char *s, size_t n, struct lit_info *o) {
+  typedef uint16_t pos_t;
   _Bool neg = n > 0 && s[0] == '-';
-  size_t a0 = (n > 0 && (s[0] == '+' || s[0] == '-')) ? 1 : 0;
-  size_t a1 = 0, b0 = 0, b1 = 0, c0 = 0, c1 = 0, lead = PN_N + 8;
-  unsigned ph = 1, nint = 0, nfrac = 0, nexp = 0, lead_digit = 0;
+  pos_t a0 = (n > 0 && (s[0] == '+' || s[0] == '-')) ? 1 : 0;
+  pos_t a1 = 0, b0 = 0, b1 = 0, c0 = 0, c1 = 0, lead = PN_N + 8;
+  uint8_t ph = 1, lead_digit = 0;
+  pos_t nint = 0, nfrac = 0, nexp = 0;
   _Bool eneg = 0, rest = 0, has_dot = 0, has_e = 0, f4 = 0;
   _Bool first_ok = a0 < n && ((s[a0] >= '0' && s[a0] <= '9') || s[a0] == '.');
-  /* running value E of the exponent digits read so far; stored once per position (unconditional stores keep the formula small) */
-  long E = 0;
+  /* running values, stored once per position (unconditional stores keep the formula small): E of the exponent digits read so
+   * far (stops growing beyond 10^8), S of the integer digits read so far modulo 2^64, over: that value reached 2^64 */
+  int32_t E = 0;
   uint64_t S = 0;
   _Bool over = 0;
   g_E[0] = 0;
   g_S[0] = 0;
   g_over[0] = 0;
-  for (unsigned k = 0; k < PN_N; k++) {
+  for (pos_t k = 0; k < PN_N; k++) {
     if (k >= a0 && k < n && ph != 5) {
       char ch = s[k];
       _Bool dig = ch >= '0' && ch <= '9', dot = ch == '.', ee = ch == 'e' || ch == 'E', sg = ch == '+' || ch == '-';
-      unsigned d = dig ? (unsigned)(ch - '0') : 0u;
+      uint8_t d = dig ? (uint8_t)(ch - '0') : 0u;
       _Bool mant = 0;
       if (ph == 1) {
         if (dig) {
@@ -135,7 +152,7 @@ static void spec_scan(const char *s, size_t n, struct lit_info *o) {
         else if (dig) { c0 = k; nexp++; E = d; ph = 4; }
         else { c0 = c1 = k; ph = 5; }
       } else { /* ph == 4 */
-        if (dig) { nexp++; if (E <= 1000000000) E = E * 10 + d; }
+        if (dig) { nexp++; if (E <= 100000000) E = E * 10 + d; }
         else { c1 = k; ph = 5; }
       }
       if (mant) {
@@ -166,11 +183,14 @@ static void spec_scan(const char *s, size_t n, struct lit_info *o) {
   o->V = S;
   o->nonzero = nonzero;
   o->pow10 = nonzero && lead_digit == 1 && !rest;
-  o->p = g_pm + (eneg ? -E : E);
+  o->p = g_pm + (eneg ? -(long)E : (long)E);
   o->eneg = eneg; o->has_dot = has_dot; o->has_e = has_e;
   o->nint = nint; o->nfrac = nfrac; o->nexp = nexp;
   o->f4_family = f4;
 }
+#ifdef UNIT_PNLOOP
+#pragma CPROVER check pop
+#endif
 /* the property's range 1e-300 <= |v| <= 1e300 */
 static _Bool lit_above(const struct lit_info *o) { return o->nonzero && (o->p > 300 || (o->p == 300 && !o->pow10)); }
 static _Bool lit_below(const struct lit_info *o) { return !o->nonzero || o->p < -300; }
@@ -248,15 +268,27 @@ struct pn_case {
   struct lit_info li;
   struct Number r;
 };
-/* a string of n <= PN_N symbolic non-NUL characters in a heap block of exactly n + 1 bytes */
+/* a string of n <= PN_N symbolic non-NUL characters.  -DPN_HEAP: in a heap block of exactly n + 1 bytes (any read behind the
+ * NUL is a pointer-check failure; used by the obligations about the scan itself); otherwise in a PN_N + 1 byte static buffer,
+ * NUL-filled behind the string (much cheaper for the solver than an object of symbolic size) */
 static void pn_input(struct pn_case *c) {
   size_t n = in_u16();
   __CPROVER_assume(n <= PN_N);
+#ifdef PN_HEAP
   char *s = (char *)malloc(n + 1);
   __CPROVER_assume(s != 0);
   for (unsigned i = 0; i < PN_N; i++)
     if (i < n) { char ch = in_char(); __CPROVER_assume(ch != 0); s[i] = ch; }
   s[n] = 0;
+#else
+  static char buf[PN_N + 1];
+  char *s = buf;
+  for (unsigned i = 0; i <= PN_N; i++) {
+    char ch = 0;
+    if (i < n) { ch = in_char(); __CPROVER_assume(ch != 0); }
+    s[i] = ch;
+  }
+#endif
   c->s = s;
   c->n = n;
   g_str = s;
@@ -271,7 +303,13 @@ static void pn_call(struct pn_case *c, unsigned checks) {
   g_mf_double = 0;
   c->r = parseNumber(c->s);
 }
-static void pn_done(struct pn_case *c) { free(c->s); }
+static void pn_done(struct pn_case *c) {
+#ifdef PN_HEAP
+  free(c->s);
+#else
+  (void)c;
+#endif
+}
 
 /* the result of a literal that is not an integer of [-2^63, 2^64): a floating value of the literal's sign and magnitude */
 static void pn_check_floating(struct pn_case *c, unsigned checks) {
